@@ -26,7 +26,7 @@ CONSTANTS
   ENC8,          \* may messages be 8bit encoded?  BOOLEAN subset
   DSNS,          \* client DSN configurations, subset of {"off","ret","notify","both"}
   NONOOP,        \* subset of BOOLEAN: WithoutNoop
-  SHAPES,        \* reply text shapes: subset of {"lead","later","none"}
+  SHAPES,        \* reply text shapes: subset of {"lead", "later", "none", "multi", "terse", "multiterse"}
   CLASSES,       \* fault classes: subset of {"t4","p5","drop","x3","stall","garbage"}
   CODESETS,      \* rotations of the reply-code table, subset of 0..99
   POLICIES,      \* TLS policies: subset of {"mandatory","opportunistic","none"}
@@ -55,6 +55,10 @@ VARIABLES cl,    \* client state (record)
 vars == <<cl, env, cfg, obs>>
 
 NoErr == [haserr |-> FALSE, reason |-> "", code |-> 0, temp |-> FALSE, esc |-> "", rcpts |-> <<>>]
+
+(* shapes of a reply text that BEGINS with an enhanced status code: followed by text, on every line of a multi-line *)
+(* reply, alone ("550 5.5.1"), alone on the first line of a multi-line reply                                        *)
+LeadShapes == {"lead", "multi", "terse", "multiterse"}
 
 (* Reply codes of the n-th fault: cfg.cs rotates through the code space so that     *)
 (* boundary codes (400, 499, 500, 599) and, in the sweep configurations, every     *)
@@ -94,7 +98,7 @@ Lost(c) == c \in {"drop", "stall", "wfail", "xclose"}   \* the connection is unu
 ErrOf(reason, ch, k, rc) ==
   [haserr |-> TRUE, reason |-> reason, temp |-> ch.c = "t4",
    code |-> IF ch.c \in {"t4", "p5"} THEN CodeOf(ch.c, k) ELSE 0,   \* only 4yz / 5yz codes are reported
-   esc |-> IF "ENHANCEDSTATUSCODES" \in cl.ext /\ ch.sh \in {"lead", "multi"} THEN EscOf(ch.c, k) ELSE "",
+   esc |-> IF "ENHANCEDSTATUSCODES" \in cl.ext /\ ch.sh \in LeadShapes THEN EscOf(ch.c, k) ELSE "",
    rcpts |-> rc]
 LocalErr(reason) == [NoErr EXCEPT !.haserr = TRUE, !.reason = reason]
 
@@ -110,7 +114,7 @@ ReplyEv(v, ch, k, caps, code) ==
     [] OTHER -> [ev |-> "reply",
                  code |-> IF ch.c = "ok" THEN code ELSE CodeOf(ch.c, k),
                  cls  |-> ch.c,
-                 esc  |-> IF ch.c \in {"t4", "p5"} /\ ch.sh \in {"lead", "multi"} THEN EscOf(ch.c, k) ELSE "",
+                 esc  |-> IF ch.c \in {"t4", "p5"} /\ ch.sh \in LeadShapes THEN EscOf(ch.c, k) ELSE "",
                  caps |-> caps]
 
 (* debug log records (only when the scenario switches debug logging on):   *)
